@@ -452,6 +452,95 @@ def after_failures(ctx, hist):
     return out
 
 
+def subclassed_builtin_types(hist):
+    """custom types written as SUBCLASSES of a built-in choice class (same layout, another choice number: a filter [20] like equalityMatch, a
+    credential [5] like simple), used after other sessions have used the built-in parents: the registering session's bytes carry the subclass's
+    own choice number and decode to the subclass; sessions without the registration refuse the bytes as an unknown choice; the parents keep working"""
+    import dataclasses
+
+    import ber as B
+
+    @dataclasses.dataclass(frozen=True)
+    class TokenCredential(sansldap.SimpleCredential):
+        auth_id: int = dataclasses.field(init=False, repr=False, default=5)
+
+        @classmethod
+        def unpack(cls, reader, options):
+            base = super().unpack(reader, options)
+            return cls(password=base.password)
+
+    @dataclasses.dataclass(frozen=True)
+    class VendorMatch(sansldap.FilterEquality):
+        filter_id: int = dataclasses.field(init=False, repr=False, default=20)
+
+        @classmethod
+        def unpack(cls, reader, options):
+            base = super().unpack(reader, options)
+            return cls(attribute=base.attribute, value=base.value)
+
+    out = []
+
+    def problem(what, **kw):
+        out.append({"key": None, "what": what, **kw})
+
+    try:
+        # 1. other sessions use the built-in parents first (both directions)
+        pc, ps = sansldap.LDAPClient(), sansldap.LDAPServer()
+        pc.search_request("dc=x", filter=sansldap.FilterEquality("cn", b"v"))
+        ps.receive(pc.data_to_send())
+        pc2, ps2 = sansldap.LDAPClient(), sansldap.LDAPServer()
+        pc2.bind_simple("cn=u", "pw")
+        ps2.receive(pc2.data_to_send())
+        # 2. a session pair that registers the subclasses
+        ac, as_ = sansldap.LDAPClient(), sansldap.LDAPServer()
+        for s_ in (ac, as_):
+            s_.register_filter(VendorMatch)
+            s_.register_auth_credential(TokenCredential)
+        ac.search_request("dc=x", filter=sansldap.FilterAnd([VendorMatch("cn", b"v"), sansldap.FilterEquality("sn", b"w")]))
+        data_f = ac.data_to_send()
+        hist["subclassed-types:checks"] += 1
+        op = B.parse(data_f)[0].kids[1]
+        flt = op.kids[6]
+        got_tags = [(k.cls, k.num) for k in flt.kids]
+        if got_tags != [(2, 20), (2, 3)]:
+            problem("a registered filter class that subclasses FilterEquality (choice [20]) is written with another choice number after other sessions used "
+                    "FilterEquality", filter_component_tags=got_tags, bytes=data_f.hex())
+        ms = as_.receive(data_f)
+        kinds_ = [type(x).__name__ for x in ms[0].filter.filters]
+        if kinds_ != ["VendorMatch", "FilterEquality"]:
+            problem("the session that registered a FilterEquality subclass decodes its bytes as " + str(kinds_), bytes=data_f.hex())
+        bs = sansldap.LDAPServer()
+        try:
+            bs.receive(data_f if got_tags == [(2, 20), (2, 3)] else bytes.fromhex("30290201016324040464633d780a01020a0100020100020100010100a010b4070402636e040176a3070402736e0401773000"))
+            problem("a session WITHOUT the registration accepted a filter of choice [20] (a type only another session registered)")
+        except sansldap.ProtocolError:
+            pass
+        as_.search_result_done(ms[0].message_id)
+        ac.receive(as_.data_to_send())
+        ac.bind("", TokenCredential("secret"))
+        data_b = ac.data_to_send()
+        cred = B.parse(data_b)[0].kids[1].kids[2]
+        if (cred.cls, cred.num) != (2, 5):
+            problem("a registered credential class that subclasses SimpleCredential (choice [5]) is written with another choice number after other sessions used "
+                    "SimpleCredential", credential_tag=[cred.cls, cred.num], bytes=data_b.hex())
+        mb = as_.receive(data_b)
+        if type(mb[0].authentication).__name__ != "TokenCredential":
+            problem("the session that registered a SimpleCredential subclass decodes its bytes as " + type(mb[0].authentication).__name__, bytes=data_b.hex())
+        bs2 = sansldap.LDAPServer()
+        try:
+            bs2.receive(data_b if (cred.cls, cred.num) == (2, 5) else bytes.fromhex("30110201026000020103040085067365637265740a"))
+            problem("a session WITHOUT the registration accepted a credential of choice [5] (a type only another session registered)")
+        except sansldap.ProtocolError:
+            pass
+        # 3. the parents still work, on old and new sessions
+        pc.search_request("dc=y", filter=sansldap.FilterEquality("cn", b"z"))
+        if type(ps.receive(pc.data_to_send())[0].filter).__name__ != "FilterEquality":
+            problem("FilterEquality no longer decodes as FilterEquality after a subclass of it was registered on another session")
+    except BaseException as e:  # noqa: BLE001
+        problem(f"sessions using custom types that subclass built-in choice classes failed with {type(e).__name__}: {e}"[:300])
+    return out
+
+
 def shared_inputs(ctx, hist):
     """two sessions are handed the SAME input object (a bytearray holding the common first bytes of their next messages): neither may keep it —
     what one session receives afterwards must not reach the other"""
@@ -517,6 +606,7 @@ def run(ctx):
     violations += shared_results(ctx, hist)
     violations += shared_inputs(ctx, hist)
     violations += after_failures(ctx, hist)
+    violations += subclassed_builtin_types(hist)
     import p_recv
     violations += p_recv.failed_pack_histories(ctx.rng, ctx.scale(150, 3000), hist)
     distinct = set()
